@@ -196,20 +196,27 @@ CHECKS["C09"] = dict(
           "source, clock) per copy and a solver-chosen iteration order of the registration map. Streams: the same range claims on math/rand's own "
           "Intn/Float64 code running over a source that returns arbitrary 63-bit values (up to DRAWS draws per call; dice sides and range "
           "widths up to 256 because the generator's modulo is symbolic-by-symbolic), so that a counterexample is a concrete stream a native "
-          "replay can feed to the real generator.",
+          "replay can feed to the real generator. Across processes (VHCrossProcess): a function table built from a seed (1..3 arbitrary "
+          "characters, and lowercase words of 12, 13, 14 (thorough: 20) characters ending in any two characters -- the lengths around which "
+          "the seed's radix-36 value stops fitting an int64) and asked for dice/random_range/random returns the same result in another "
+          "process, i.e. on package-level state initialised afresh with independent environment answers (clock, global random source, "
+          "hash/maphash seeds, process id); a counterexample is confirmed by running the native harness in two processes.",
     note="The bit-for-bit stream of math/rand for a seed is the stdlib's contract (uninterpreted function of seed, call index and bound).",
     instances=dict(
         quick=[inst("root", "VHRandomContracts", solver="z3", workers=8, must_reach=["dice", "random_range", "random"]),
                inst("root", "VHDeterminism", {"CALLS": 1}, solver="z3", workers=8, maporder="symbolic", must_reach=["compared"]),
+               inst("root", "VHCrossProcess", {"CALLS": 1, "SEEDLENS": 6}, solver="z3", workers=8, must_reach=["compared"]),
                inst("root", "VHRandomStreams", {"FN": 2, "DRAWS": 2}, solver="cvc5", workers=2, timeout_ms=300000, must_reach=["random"]),
                inst("root", "VHRandomStreams", {"FN": 0, "DRAWS": 2}, solver="z3", workers=4, timeout_ms=300000, must_reach=["dice"]),
                inst("root", "VHRandomStreams", {"FN": 1, "DRAWS": 2}, solver="z3", workers=4, timeout_ms=300000, must_reach=["random_range"])],
         thorough=[inst("root", "VHRandomContracts", solver="z3", workers=8, must_reach=["dice", "random_range", "random"]),
                   inst("root", "VHDeterminism", {"CALLS": 2}, solver="z3", workers=16, maporder="symbolic", must_reach=["compared"]),
+                  inst("root", "VHCrossProcess", {"CALLS": 2, "SEEDLENS": 7}, solver="z3", workers=8, must_reach=["compared"]),
                   inst("root", "VHRandomStreams", {"FN": 2, "DRAWS": 3}, solver="cvc5", workers=2, timeout_ms=600000, must_reach=["random"]),
                   inst("root", "VHRandomStreams", {"FN": 0, "DRAWS": 3}, solver="z3", workers=4, timeout_ms=900000, must_reach=["dice"]),
                   inst("root", "VHRandomStreams", {"FN": 1, "DRAWS": 3}, solver="z3", workers=4, timeout_ms=900000, must_reach=["random_range"])]),
-    assumptions=["seed strings of 1..3 arbitrary bytes"],
+    assumptions=["seed strings of 1..3 arbitrary bytes", "cross-process: seeds of 12..20 characters are lowercase words ending in any two characters",
+                 "hash/maphash.MakeSeed, os.Getpid, time.Now and the global math/rand source answer arbitrarily and independently per process"],
 )
 
 # ---------------------------------------------------------------- C07
